@@ -272,13 +272,14 @@ class BaseObserver(EventDispatcher):
         return self._emitters
 
     def start(self) -> None:
-        for emitter in self._emitters.copy():
-            try:
-                emitter.start()
-            except Exception:
-                self._remove_emitter(emitter)
-                raise
-        super().start()
+        with self._lock:
+            for emitter in self._emitters.copy():
+                try:
+                    emitter.start()
+                except Exception:
+                    self._remove_emitter(emitter)
+                    raise
+            super().start()
 
     def schedule(
         self,
